@@ -38,7 +38,8 @@ def run(chk, repo: Repo):
     _r2(chk, repo, ci)
     _r3(chk, repo, ci)
     _r4(chk, repo, ci)
-    _r5(chk, repo, ci)
+    from .common import best_of as _bo
+    _bo(chk, (1, 2), lambda t, lvl: _r5(t, repo, ci, lvl))          # as written; with the private helpers of the converters inlined
     chk.rule("C19-R6", "the stored chain is read-only for statistics and diagnostics: no method writes into self.samples in place, and a library function that is "
                        "handed (a view of) the chain does not write into that argument (followed through calls between module-level functions)", floor=20)
     _r6(chk, repo, ci)
@@ -334,7 +335,7 @@ def _r4(chk, repo, ci):
         chk.ok("C19-R4", f"{ci.qual}.compute_rhat", site(repo, fn), "chains on axis 1 by index, variables zipped in order")
 
 
-def _r5(chk, repo, ci):
+def _r5(chk, repo, ci, level=1):
     """Samples.funvals / vector / parameters as decision tables over the representation flags (sa/pathtable.py). For every valuation the getter is
     followed along its path with the per-sample loop stepped over: identity valuations must return self; on the others the returned value must be
     Samples(<freshly allocated array>, <flags>, geometry=self.geometry), the path must contain exactly one loop `for i, v in enumerate(self)` whose body
@@ -362,7 +363,7 @@ def _r5(chk, repo, ci):
         if p is None or p.getter is None:
             raise AnchorError(f"Samples.{name} not found")
         src = p.getter
-        fn = canon_fn(repo, ci, src, 1)
+        fn = canon_fn(repo, ci, src, level)
         problems, undec = [], None
         natoms = [pn(a_) for a_ in atoms]
         for bits in itertools.product((True, False), repeat=len(atoms)):
@@ -428,7 +429,8 @@ def _r5(chk, repo, ci):
                         problems.append(f"[{case}] per-sample conversion `{out}[{axis}, i] = C(sample)` in `for i, sample in enumerate(self)` not found")
                     continue
                 i_, v_ = lp.target.elts[0].id, lp.target.elts[1].id
-                if pn(st.targets[0].slice) not in (pn(f"({axis},{i_})"), pn(f"{axis},{i_}")) or path_of(st.value.args[0]) != v_:
+                # `a[..., i]` and, for the 2-D results, `a[:, i]` both address column i of the last axis
+                if pn(st.targets[0].slice) not in (pn(f"({axis},{i_})"), pn(f"{axis},{i_}"), pn(f"(...,{i_})"), pn(f"...,{i_}")) or path_of(st.value.args[0]) != v_:
                     problems.append(f"[{case}] samples are not written along the last axis by index (`{pn(st)}`)")
                 cv = st.value.func
                 cv = lenv.get(cv.id, cv) if isinstance(cv, ast.Name) else _Sub(lenv).visit(_clone(cv))
